@@ -602,6 +602,12 @@ def check_C08(ctx):
             cs.eval('a in [5, %s]' % el_, o_, 'int-overflow-lists')
             cs.eval('a in [%s]' % el_, o_, 'int-overflow-lists')
             cs.eval('a eq 5 or a eq %s' % el_, o_, 'int-overflow-lists')
+    hist8 = []
+    for text_ in ['x in ["abc", "q"]', 'x in ["ABC"] or x in ["zz"]', 'not (x in ["xyz", "q"])']:
+        for seq_ in (['abc', 'xyz', 'abc'], ['xyz', 'abc', 'q'], ['q', 'Abc', 'xyz']):
+            hist8.append(cs.hist(text_, [('p', obj({'x': ('strkeep', v_.encode())})) for v_ in seq_] + [('d',)], 'in-kept-pointer'))
+            hist8.append(cs.hist(text_.replace('x in ["abc", "q"]', 'x eq "abc" or x eq "q"').replace('x in ["ABC"] or x in ["zz"]', 'x eq "ABC" or x eq "zz"').replace('x in ["xyz", "q"]', 'x eq "xyz" or x eq "q"'),
+                                 [('p', obj({'x': ('strkeep', v_.encode())})) for v_ in seq_] + [('d',)], 'in-kept-pointer'))
     # elements beyond the float64 range next to infinite attributes: the list fails like the scalar literal does (both against the model)
     for (tin_, teq_, o_) in scale.inf_lists(ctx):
         cs.eval(tin_, o_, 'inf-lists')
@@ -611,7 +617,12 @@ def check_C08(ctx):
         for a_ in (I(2 * (n_ - 1)), I(1), F(2.0), F(2.5), I(0), ABSENT):
             cs.eval(big_, obj({'x': a_}) if a_ is not ABSENT else obj({}), 'long-list')
     res = ctx.run(cs)
-    ctx.compare(cs.cases, res, ['verdict', 'err'], scope=accepted)
+    ctx.compare([c for c in cs.cases if c.kind != 'hist'], res, ['verdict', 'err'], scope=accepted)
+    ctx.compare(hist8, res, ['out'])
+    for i_ in range(0, len(hist8), 2):
+        a_, b_ = res.impl.get(hist8[i_].id), res.impl.get(hist8[i_ + 1].id)
+        if a_ and b_ and a_.get('out') != b_.get('out'):
+            ctx.violation('`in` on one pointer-typed Stringer whose text changes between calls differs from its eq-disjunction: %s vs %s' % (a_.get('out'), b_.get('out')), [hist8[i_], hist8[i_ + 1]])
     for c_in, c_eq, vs in groups:
         a, b = res.impl.get(c_in.id), res.impl.get(c_eq.id)
         if not a or not b:
@@ -1712,6 +1723,16 @@ def check_C11(ctx):
                 h = cs.hist(text_, ops, 'hist-inplace-no-call')
                 fresh = [cs.eval(text_, o[1], 'hist-fresh') if o[0] in ('p', 'q', 'n') else None for o in ops]
                 hs.append((h, ops, fresh))
+    # ONE pointer-typed Stringer value of the caller whose text changes between the calls (what is remembered per value must not be
+    # remembered per pointer)
+    for text_ in ['x in ["abc", "q"]', 'x eq "abc"', 'x co "b" or y eq 1', 'x in ["abc"] and x sw "a"', 'not (x in ["xyz"])', 'x gt "m"']:
+        for seq_ in (['abc', 'xyz', 'abc'], ['xyz', 'abc'], ['abc', 'abc', 'ABC', 'q', 'abc'], ['q', 'xyz', 'abc', 'xyz']):
+            ops = []
+            for v_ in seq_:
+                ops += [('p', obj({'x': ('strkeep', v_.encode())})), ('d',)]
+            h = cs.hist(text_, ops, 'hist-kept-pointer')
+            fresh = [cs.eval(text_, obj({'x': ('str', o[1][1][0][1][1])}), 'hist-fresh') if o[0] == 'p' else None for o in ops]
+            hs.append((h, ops, fresh))
     # lists of every length around round sizes, attribute values around membership (fractions, the other numeric types), from the second call on
     for n in ([1, 2, 7, 8, 15, 16, 17, 32, 33, 64, 65] if ctx.quick else [1, 2, 7, 8, 9, 15, 16, 17, 31, 32, 33, 63, 64, 65, 127, 128, 129, 256, 257, 1025]):
         for text_, vals_ in [('x in [%s]' % ', '.join(str(i) for i in range(1, n + 1)), [F(2.5), F(n + 0.999), F(1.0), F(float(n)), F(n + 1.0), I(n), I(n + 1), F(0.5), F(-0.0), ('i64', n), ('i32', 1), S('1'), F(float('nan'))]),
